@@ -37,7 +37,10 @@ PARTIAL = [
     "square roots (norm, normalize, standardize) compared through squares / on the implementation only",
     "Basis.inner_product: Cholesky test not modelled; when it fails the statsmodels fallback is absent (classified, skipped)",
 ]
-TRUSTED_EXTRA = ["pandas.read_csv / DataFrame.to_csv round trip of decimal literals"]
+TRUSTED_EXTRA = ["pandas.read_csv / DataFrame.to_csv round trip of decimal literals",
+                 "harness/c14_translate.py + lean/FDAModel/Core/NpMat.lean: syntactic reading of the coefficient-space formulas "
+                 "(np.einsum subscripts, @ / .T / np.mean / np.diag with symbolic shapes; numpy.isclose as |a-b| <= atol + rtol|b|), ~250 lines",
+                 "harness/c14.py parse_csv_rule: syntactic reading of read_csv's label rule"]
 
 FAMILIES = ["fourier", "legendre", "wiener", "bsplines", "given"]
 
@@ -167,8 +170,34 @@ end FDA.Generated.CsvRule
 """
 
 
+import c14_translate  # noqa: E402
+
+GEN_FORMULAS = os.path.join(common.LEAN_DIR, "FDAModel", "Generated", "BasisFormulas.lean")
+
+
+def _translate_formulas():
+    """Generated/BasisFormulas.lean from the coefficient-space methods of BasisFunctionalData; an unrecognised shape is
+    not an alarm: the reference translation kept beside the translator is used and the evidence says so."""
+    path = os.path.join(common.REPO, "FDApy", "representation", "functional_data.py")
+    try:
+        src = c14_translate.lean_source(path)
+        TRANSLATOR_NOTE.append("translator: coefficient-space formulas of BasisFunctionalData regenerated from the source and re-proved "
+                               "equal to the model (C14.basis_formulas_match_source)")
+    except (ValueError, SyntaxError, IndexError, AttributeError, KeyError, TypeError) as e:
+        note = f"translator: shape of the BasisFunctionalData methods not recognised, tie rests on the correspondence only ({e})"
+        TRANSLATOR_NOTE.append(note)
+        print("note:", note)
+        src = open(os.path.join(os.path.dirname(os.path.abspath(__file__)), "c14_basisformulas_reference.lean")).read()
+    except OSError as e:
+        raise common.InfraError(f"translator: cannot read {path}: {e}")
+    if not os.path.exists(GEN_FORMULAS) or open(GEN_FORMULAS).read() != src:
+        with open(GEN_FORMULAS, "w") as fh:
+            fh.write(src)
+
+
 def translate():
     del TRANSLATOR_NOTE[:]
+    _translate_formulas()
     path = os.path.join(common.REPO, "FDApy", "misc", "loader.py")
     try:
         src = csv_rule_lean(parse_csv_rule(path))
@@ -187,7 +216,7 @@ def translate():
 
 
 def extra_coverage(cases, impls, models):
-    return dict(translator=list(TRANSLATOR_NOTE) or ["translator: read_csv label rule regenerated from FDApy/misc/loader.py and proved equal to the model (C14.read_csv_rule_matches_source)"])
+    return dict(translator=list(TRANSLATOR_NOTE) + ["translator: read_csv label rule regenerated from FDApy/misc/loader.py and proved equal to the model (C14.read_csv_rule_matches_source)"])
 
 
 # --------------------------------------------------------------------------
